@@ -460,7 +460,45 @@ def _run(f, g, kind, where, nm, keep, children, side, mut, snap):
     _mutate(ckind, a, mut)
     if _content(ckind, b_) != other_before:
         return _no("a change of one side is visible on the other")
+    # the RETURNED handle lives in the destination: its file is the destination file, what it accepts as
+    # link targets are the destination block's entities, and copying IT copies the copy (as it is now)
+    if getattr(r, "file", dfile)._h5file.filename != dfile._h5file.filename:
+        return _no("the returned handle belongs to another file")
+    if kind in ("tag", "mtag"):
+        own = [x for x in dest.data_arrays][0]
+        foreign = src.references[0] if len(src.references) else None
+        try:
+            r.references.append(own)
+        except Exception as e:  # noqa
+            return _no("the returned copy refuses an array of its own block: %s" % type(e).__name__)
+        if own.id not in [x.id for x in there.references]:
+            return _no("a reference appended through the returned handle is not in the copy")
+        if foreign is not None and dest is not src_parent_of(src) and foreign.id not in [x.id for x in dest.data_arrays]:
+            try:
+                r.references.append(foreign)
+                return _no("the returned copy accepts an array of the source's block")
+            except Exception:  # noqa
+                pass
+    if kind in ("array", "tag", "mtag", "frame"):
+        now = _content(ckind, r)
+        again = copier2(kind, dest, r, "copy of the copy")
+        if _content(ckind, again) != _renamed(now, "copy of the copy"):
+            return _no("copying the returned handle does not copy the copy")
     return True
+
+
+def src_parent_of(e):
+    return e._parent
+
+
+def copier2(kind, dest, e, name):
+    if kind == "array":
+        return dest.create_data_array(name, copy_from=e)
+    if kind == "tag":
+        return dest.create_tag(name, copy_from=e)
+    if kind == "mtag":
+        return dest.create_multi_tag(name, copy_from=e)
+    return dest.create_data_frame(name, copy_from=e)
 
 
 def validate():
